@@ -48,7 +48,7 @@ fuzz_target!(|data: &[u8]| {
     let _ = prop;
     let v = qv::anycase::AnyCase::Seq(case).build();
     let mut ctx = Ctx::default();
-    if let Err(f) = v.check(plan_seed, qv::anycase::AnyOpts { unchecked: true, budget: 12, iterators: true }, &mut ctx) {
+    if let Err(f) = v.check(plan_seed, qv::anycase::AnyOpts::new(true, 12, true), &mut ctx) {
         panic!("sequence oracle violated: {}", f.msg);
     }
 });
